@@ -81,6 +81,9 @@ def regenerate(log):
     reg = os.path.join(BUILD, "registry.json")
     if not os.path.exists(reg):
         subprocess.check_call([MAIN_HOST, os.path.join(HARNESS, "ref_registry.py"), reg], cwd=HARNESS)
+    ref_eff = os.path.join(BUILD, "ref_effects.json")
+    if not os.path.exists(ref_eff):
+        subprocess.check_call([MAIN_HOST, os.path.join(HARNESS, "ref_effects.py"), ref_eff], cwd=HARNESS, stdout=subprocess.DEVNULL)
     # static effect facts (ASTs under /repo/xdis)
     import effects
     import gen_lean
